@@ -165,7 +165,9 @@ def mutate(draw, text, kinds=None):
             lines[i] = "\x0c" + lines[i]
             text = "\n".join(lines)
         elif m == "continuation" and text:
-            sp = [mm.start() for mm in re.finditer(r" ", text)]
+            # only spaces inside a line's code (a backslash-newline inside the *indentation* is measured differently by
+            # parso's and CPython's tokenizers: a dependency quirk, not a subject of these properties)
+            sp = [mm.start() for mm in re.finditer(r"(?<=[^\s\\]) (?=\S)", text)]
             if sp:
                 p = draw(st.sampled_from(sp))
                 text = text[:p] + " \\\n" + text[p + 1:]
